@@ -439,7 +439,20 @@ func (env *Env) evalLoc(e Expr) Val {
 // modLocs describes the frame of a contract, resolved against a state.
 type modLocs struct {
 	precise map[string][]Term // array name -> allowed indices
-	coarse  map[string]bool   // array name (or prefix with trailing *) fully havoced
+	coarse  map[string]bool   // array name fully havoced
+	wild    []string          // name prefixes fully havoced
+}
+
+func (ml modLocs) isCoarse(name string) bool {
+	if ml.coarse[name] {
+		return true
+	}
+	for _, w := range ml.wild {
+		if strings.Contains(name, w) {
+			return true
+		}
+	}
+	return false
 }
 
 func (x *Exec) resolveModifies(st *State, spec *FuncSpec, env *Env) modLocs {
@@ -471,6 +484,10 @@ func (x *Exec) resolveModifies(st *State, spec *FuncSpec, env *Env) modLocs {
 			}
 			if strings.HasPrefix(raw, "ghost.") || strings.HasPrefix(raw, "once:") || strings.HasPrefix(raw, "chan.") {
 				ml.coarse[raw] = true
+				continue
+			}
+			if strings.HasSuffix(raw, "*") {
+				ml.wild = append(ml.wild, strings.TrimSuffix(raw, "*"))
 				continue
 			}
 			// T.field
@@ -543,6 +560,18 @@ func (x *Exec) arraySort(st *State, name string) (Sort, bool) {
 
 func (x *Exec) havocModifies(st *State, spec *FuncSpec, env *Env) {
 	ml := x.resolveModifies(st, spec, env)
+	if len(ml.wild) > 0 {
+		for _, name := range sortedKeys(st.heap) {
+			if ml.isCoarse(name) {
+				ml.coarse[name] = true
+			}
+		}
+		for name := range x.baseArrays {
+			if ml.isCoarse(name) {
+				ml.coarse[name] = true
+			}
+		}
+	}
 	for _, name := range sortedKeys(ml.coarse) {
 		s, ok := x.arraySort(st, name)
 		if !ok {
